@@ -235,7 +235,7 @@ def bilin_inv(
     g: ParticleArray,
     F: Field,
     G: Field,
-    maxiter: int = 7,
+    maxiter: int = 30,
     tol: float = 1.0e-7,
 ) -> tuple[ParticleArray, ParticleArray]:
     """Inverse bilinear interpolation
